@@ -20,6 +20,39 @@ NOT_DECIDED = "the numeric bounds T and T+I, late pongs (timing)"
 THOROUGH_CONFIGS = ["mux-std-only"]
 
 
+def _cmp_match_form(facts, b, tr):
+    """(None arm yields Greater, Some arm yields own.cmp(other), description) for a match on the Option inside self."""
+    for bb in range(len(b.blocks)):
+        if b.term(bb)["k"] != "SwitchInt":
+            continue
+        g = guard_at(facts, b, tr, bb)
+        if g is None or g.kind != "discr" or not (g.adt or "").endswith("option::Option"):
+            continue
+        if not any(x.kind == "param" and x[1] == 1 for x in walk(g.pred)):
+            continue
+        res = {}
+        for succ, var in g.edges:
+            if var not in ("Some", "None"):
+                continue
+            vals = []
+            for x in sorted(b.reachable_from(succ, cut={bb})):
+                for st in b.blocks[x]["stmts"]:
+                    if st["k"] == "Assign" and st["lhs"]["l"] == 0 and not st["lhs"].get("p"):
+                        vals.append(strip(tr.rvalue(st["rv"])))
+                t = b.term(x)
+                if t["k"] == "Call" and t["dest"]["l"] == 0 and not t["dest"].get("p"):
+                    vals.append(strip(tr.call_node(x, t)))
+            res[var] = vals
+        nv, sv = res.get("None", []), res.get("Some", [])
+        none_ok = len(nv) == 1 and nv[0].kind == "agg" and nv[0][2].endswith("Ordering::Greater")
+        dir_ok = len(sv) == 1 and sv[0].kind == "call" and sv[0][6] == "cmp" and len(sv[0][3]) == 2 and \
+            any(x.kind == "downcast" and x[2] == "Some" for x in walk(sv[0][3][0])) and \
+            any(x.kind == "param" and x[1] == 2 for x in walk(sv[0][3][1])) and \
+            not any(x.kind == "param" and x[1] == 2 for x in walk(sv[0][3][0]))
+        return none_ok, dir_ok, "None -> %s; Some -> %s" % ([fmt(x)[:60] for x in nv], [fmt(x)[:80] for x in sv])
+    return None
+
+
 def check(facts, rep, tier, cfg):
     crate = facts.crate("penguin_mux")
     if crate is None:
@@ -199,6 +232,17 @@ def check(facts, rep, tier, cfg):
             rep.analysed(b)
             if v.kind == "call" and v[6] == "map_or" and any(x.kind == "agg" and x[2].endswith("Ordering::Greater") for x in walk(v[3][1])):
                 rep.ok("C16.R4", "cmp-none-greater", where, "None compares Greater (never less than any elapsed time)")
+            elif _cmp_match_form(facts, b, tr) is not None:
+                # the same function written as `match self.0 { Some(d) => d.cmp(other), None => Greater }`
+                none_ok, dir_ok, desc = _cmp_match_form(facts, b, tr)
+                if none_ok:
+                    rep.ok("C16.R4", "cmp-none-greater", where, "None compares Greater (match form)")
+                else:
+                    rep.bad("C16.R4", "cmp-none-greater", where, "cmp_duration on a disabled duration is not Greater: %s" % desc)
+                if dir_ok:
+                    rep.ok("C16.R4", "cmp-direction", where, "d.cmp(other) (match form)")
+                else:
+                    rep.bad("C16.R4", "cmp-direction", where, "comparison direction is not `own.cmp(other)`: %s" % desc)
             else:
                 rep.bad("C16.R4", "cmp-none-greater", where, "cmp_duration on a disabled duration is not Greater: `%s`" % fmt(v))
         if b.path.endswith("OptionalDuration::cmp_duration::{closure#0}"):
